@@ -59,7 +59,8 @@ static void diffusionCase(const std::string &id, std::mt19937_64 &rng, size_t ni
     const auto c = diffusion::solveDiffusionSteadyState(makeD(pts, vals), a, b);
     report(id, "start_value", std::fabs(c(pts.front()) - a) <= tol, fmt("c(front)=%.17g expected %.17g", c(pts.front()), a));
     report(id, "end_value", std::fabs(c(pts.back()) - b) <= tol, fmt("c(back)=%.17g expected %.17g", c(pts.back()), b));
-    for (double lambda : {0.5, 3.0, 1000.0}) {
+    // positive constants from 1e-20 to 1e12: a change of physical unit (m^2/s vs. nm^2/s) must not matter
+    for (double lambda : {0.5, 3.0, 1000.0, 1e-6, 1e-12, 1e-20, 1e12}) {
       std::vector<double> sv;
       for (double v : vals) sv.push_back(lambda * v);
       const auto c2 = diffusion::solveDiffusionSteadyState(makeD(pts, sv), a, b);
